@@ -562,6 +562,73 @@ var flagID = map[byte]string{
 // model reproduces the code.
 const repeatedID = "C13-repeated-location"
 
+// a filter below a recursive descent is evaluated on a node AFTER the nodes below it have been edited (the
+// traversal is children first): a node whose filter value changes through the edit of its descendants is
+// selected or deselected by the mutators, Get evaluates every filter on the tree as it was. Decided by: the
+// path has a filter after a descent, the call is an all-matches form, the model reproduces the code, and the
+// model with EVERY deviation off gives a tree that differs from the specification's only at proper ancestors
+// of selected locations (Remove: at or beside such an ancestor, the elements behind a removed one shift).
+const reevaluatedID = "C13-descent-filter-reevaluated"
+
+func (c *Case) filterBelowDescent() bool {
+	d := false
+	for _, f := range c.P {
+		if f.Kind == 'd' {
+			d = true
+		} else if f.Kind == 'f' && d {
+			return true
+		}
+	}
+	return false
+}
+
+func (w *worker) reevaluated(c *Case, genData bool, dw string, extra map[string]any) (bool, error) {
+	if c.One || !c.filterBelowDescent() || extra == nil {
+		return false, nil
+	}
+	exp, _ := extra["expected"].(string)
+	sel, _ := extra["selected"].(string)
+	e, err := nodeOfText(exp)
+	if err != nil || sel == "" || sel == "none" {
+		return false, nil
+	}
+	a, err := w.ask([]string{c.modelReq(genData, "-", dw)})
+	if err != nil {
+		return false, err
+	}
+	f := strings.Fields(a[0])
+	if len(f) != 2 || f[0] != "ok" {
+		return false, nil
+	}
+	x, err := nodeOfText(f[1])
+	if err != nil {
+		return false, nil
+	}
+	locs := parseLocs(sel)
+	var diffs [][]step
+	diffLocs(e, x, nil, &diffs)
+	if len(diffs) == 0 {
+		return false, nil
+	}
+	for _, d := range diffs {
+		at := d
+		if c.Op == "rem" && len(d) > 0 {
+			at = d[:len(d)-1]
+		}
+		ok := false
+		for _, p := range locs {
+			if len(d) < len(p) && isPrefix(at, p) {
+				ok = true
+				break
+			}
+		}
+		if !ok {
+			return false, nil
+		}
+	}
+	return true, nil
+}
+
 // curFlags is Dev.current of the model (asked from the driver at start), minus VERIF_FIXED=<letters> (to try the
 // harness against a tree patched with a proposed fix).
 var curFlags = allFlags
@@ -751,6 +818,15 @@ func (w *worker) problem(c *Case, clause, what string, genData, tied bool, dw st
 		}
 		if id == "" && c.repeated && clause != "panic" && clause != "simple-gen" {
 			id, flags = repeatedID, "repeated-location"
+		}
+		if id == "" && clause != "panic" && clause != "simple-gen" {
+			ok, err := w.reevaluated(c, genData, dw, extra)
+			if err != nil {
+				return err
+			}
+			if ok {
+				id, flags = reevaluatedID, "flags=all-off+filter-reevaluated"
+			}
 		}
 		if id != "" {
 			if extra == nil {
